@@ -335,6 +335,7 @@ def ast_containment(chk, hy, n_programs):
                     chk.count("ast:reader-positions-not-nested")
                 comp = hy.compiler.HyASTCompiler(mod, filename="<c17>", source=src)
                 bad = []
+                kwpat = [False]
                 try:
                     with comp.scope:
                         for f in models:
@@ -350,6 +351,8 @@ def ast_containment(chk, hy, n_programs):
                                         chk.count("ast:constant-nodes-not-judged" + (":outside-span" if not (f.start_line <= ln <= f.end_line) else ""))
                                         continue
                                     chk.count("ast:nodes")
+                                    if isinstance(n, ast.MatchClass) and ast.unparse(n.cls) == "hy.models.Keyword":
+                                        kwpat[0] = True
                                     if not (f.start_line <= ln <= f.end_line):
                                         bad.append((type(n).__name__, ln, [f.start_line, f.end_line]))
                 except Exception:
@@ -362,7 +365,7 @@ def ast_containment(chk, hy, n_programs):
         chk.count("ast:programs")
         if bad:
             chk.fail("ast-node-line-outside-form-span:" + bad[0][0],
-                     {"program": src, "has_match_keyword_pattern": any(has_kw_pattern(hy, f) for f in models)}, bad[:5],
+                     {"program": src, "has_match_keyword_pattern": kwpat[0]}, bad[:5],
                      "every node's lineno within the line span of the top-level form it was compiled from",
                      "compile each form of the program with HyASTCompiler.compile and walk the Result")
 
@@ -439,3 +442,19 @@ def run(chk):
                 "not on line 1 / program with more than 3 lines" % (len(CONTEXTS), len(RAISERS), 3 if thorough else 1))
     traceback_oracle(chk, hy, thorough)
     ast_containment(chk, hy, 6000 if thorough else 350)
+
+
+def replay(path):
+    """re-run the traceback oracle on the program of a replay file"""
+    import json
+    d = json.load(open(path))
+    inp = d.get("input", {})
+    print(json.dumps({k: d.get(k) for k in ("key", "observed", "expected")}, indent=1)[:2000])
+    if "span" not in inp:
+        return 1
+    hy = vlib.use_repo_in_process()
+    import hy.compiler  # noqa
+    res = run_program(hy, inp["program"], "<c17-replay>")
+    print("program:\n" + inp["program"])
+    print("outcome:", res, "span:", inp["span"])
+    return 0 if res[0] == "raised" and inp["span"][0] <= res[2] <= inp["span"][1] else 1
